@@ -29,9 +29,12 @@ def gen_cases(tier, seed):
         if tier == 'quick':
             for sh in range(2):
                 yield {'engine': 'sched', 'shape': n, 'bound': 1, 'fine': False, 'shard': [sh, 2]}
+            if n in ('P1', 'P2', 'P5'):
+                yield {'engine': 'sched', 'shape': n, 'bound': 1, 'fine': False, 'shard': [0, 1], 'nolead': True}
         else:
             for sh in range(4):
                 yield {'engine': 'sched', 'shape': n, 'bound': 1, 'fine': True, 'shard': [sh, 4]}
+                yield {'engine': 'sched', 'shape': n, 'bound': 1, 'fine': True, 'shard': [sh, 4], 'nolead': True}
             if n != 'P5':
                 for sh in range(24):
                     yield {'engine': 'sched', 'shape': n, 'bound': 2, 'fine': False, 'shard': [sh, 24]}
@@ -41,7 +44,8 @@ def gen_cases(tier, seed):
 
 
 def prog_of(case):
-    return {'steps': [{'fn': 'out_static', 'a': ['x1'], 'ret': 'v1'}, {'do': 'par', 'threads': SHAPES[case['shape']]}, {'fn': 'in_prop', 'ret': 'vq'}]}
+    lead = [] if case.get('nolead') else [{'fn': 'out_static', 'a': ['x1'], 'ret': 'v1'}]   # nolead: the first interception of the run is made by the workers
+    return {'steps': lead + [{'do': 'par', 'threads': SHAPES[case['shape']]}, {'fn': 'in_prop', 'ret': 'vq'}]}
 
 
 def compare(prog, r, pl, label):
